@@ -1,9 +1,15 @@
 package main
 
-// C05 end to end: for a rules file, engine A = Engine.Load(source) and
-// engine B = irconv.ConvertFile -> irprint.File -> evaluate the printed literal -> Engine.LoadFromIR
-// must expose equal LoadedGroups() and produce equal report streams on the same target files.
-// (Engine C = LoadFromIR of the converter's value directly separates printer defects from loader differences.)
+// C05 end to end: for a load history (1..3 rules files loaded in order into one engine), engine A =
+// Engine.Load(source) of every file and engine B = `gorules precompile` (parse, type-check as "gorules",
+// irconv.ConvertFile) -> irprint.File -> evaluate the printed literal -> Engine.LoadFromIR of every file
+// must agree on the outcome of every load call, expose equal LoadedGroups() and produce equal report
+// streams (same reports, same order) on the same target files.
+// (Engine C = LoadFromIR of the converter's values directly separates printer defects from loader differences.)
+// Histories: the 23 fixture rules files, bundle imports and generated files one per engine; generated
+// histories of 1..3 files (c05_hist.go: package clauses other than gorules, per-file custom function
+// names and bodies, files competing for the same nodes, colliding group names, equal file names, a
+// bundle import first or after an earlier load); 2..3 fixture files in one engine.
 
 import (
 	"fmt"
@@ -15,14 +21,17 @@ import (
 	"math/rand"
 	"os"
 	"path/filepath"
+	"regexp"
 	"runtime"
+	"runtime/debug"
 	"sort"
+	"strconv"
 	"strings"
 	"sync"
 	"sync/atomic"
+	"time"
 
 	"github.com/quasilyte/go-ruleguard/ruleguard"
-	"github.com/quasilyte/go-ruleguard/ruleguard/goutil"
 	"github.com/quasilyte/go-ruleguard/ruleguard/ir"
 	"github.com/quasilyte/go-ruleguard/ruleguard/irconv"
 	"verifharness/hx"
@@ -42,30 +51,108 @@ func c05Convert(filename, src string) (f *ir.File, err error) {
 	return c05ConvertWith(nil, token.NewFileSet(), filename, src)
 }
 
+// c05ConvertWith follows precompileCommand of cmd/gorules/main.go step by step: parse with comments,
+// type-check the file under the package path that command uses ("gorules", whatever the package clause
+// says; read from the command's source by c05PrecompilePkgPath), types.Info with Types/Uses/Defs,
+// irconv.ConvertFile.  (goutil.LoadGoFile would type-check under the name of the
+// package clause; the two coincide only for `package gorules`.)
 func c05ConvertWith(imp types.Importer, fset *token.FileSet, filename, src string) (f *ir.File, err error) {
 	defer func() {
 		if r := recover(); r != nil {
 			err = fmt.Errorf("PANIC %s: %v", hx.PanicKind(r), r)
 		}
 	}()
-	lf, err := goutil.LoadGoFile(goutil.LoadConfig{Fset: fset, Filename: filename, Data: src, Importer: imp})
+	if imp == nil {
+		imp = importer.ForCompiler(fset, "source", nil)
+	}
+	af, err := parser.ParseFile(fset, filename, src, parser.ParseComments)
+	if err != nil {
+		return nil, fmt.Errorf("parse file error: %w", err)
+	}
+	typechecker := types.Config{Importer: imp}
+	info := &types.Info{
+		Types: map[ast.Expr]types.TypeAndValue{},
+		Uses:  map[*ast.Ident]types.Object{},
+		Defs:  map[*ast.Ident]types.Object{},
+	}
+	pkgPath, err := c05PrecompilePkgPath(af)
 	if err != nil {
 		return nil, err
 	}
-	ctx := &irconv.Context{Pkg: lf.Pkg, Types: lf.Types, Fset: fset, Src: []byte(src)}
-	return irconv.ConvertFile(ctx, lf.Syntax)
+	pkg, err := typechecker.Check(pkgPath, fset, []*ast.File{af}, info)
+	if err != nil {
+		return nil, fmt.Errorf("typechecker error: %w", err)
+	}
+	ctx := &irconv.Context{Pkg: pkg, Types: info, Fset: fset, Src: []byte(src)}
+	return irconv.ConvertFile(ctx, af)
+}
+
+var c05PrecompileOnce sync.Once
+var c05PrecompileLit, c05PrecompileExpr string
+var c05PrecompileErr error
+
+// c05PrecompilePkgPath: the package path precompileCommand type-checks a rules file under, read from
+// cmd/gorules/main.go of the tree under test (that command is a module of its own and is not linked
+// into the harness): a string literal (today "gorules"), or the name in the file's package clause.
+func c05PrecompilePkgPath(af *ast.File) (string, error) {
+	c05PrecompileOnce.Do(func() {
+		path := filepath.Join(repoDir(), "cmd", "gorules", "main.go")
+		f, err := parser.ParseFile(token.NewFileSet(), path, nil, 0)
+		if err != nil {
+			c05PrecompileErr = fmt.Errorf("cannot read precompileCommand: %v", err)
+			return
+		}
+		found := false
+		for _, d := range f.Decls {
+			fd, ok := d.(*ast.FuncDecl)
+			if !ok || fd.Name.Name != "precompileCommand" || fd.Body == nil {
+				continue
+			}
+			ast.Inspect(fd.Body, func(n ast.Node) bool {
+				call, ok := n.(*ast.CallExpr)
+				if !ok || found {
+					return true
+				}
+				if sel, ok := call.Fun.(*ast.SelectorExpr); ok && sel.Sel.Name == "Check" && len(call.Args) == 4 {
+					found = true
+					if lit, ok := call.Args[0].(*ast.BasicLit); ok && lit.Kind == token.STRING {
+						c05PrecompileLit, _ = strconv.Unquote(lit.Value)
+					} else {
+						c05PrecompileExpr = types.ExprString(call.Args[0])
+					}
+				}
+				return true
+			})
+		}
+		if !found {
+			c05PrecompileErr = fmt.Errorf("cannot follow precompileCommand in %s: no types.Config.Check call", path)
+		}
+	})
+	switch {
+	case c05PrecompileErr != nil:
+		return "", c05PrecompileErr
+	case c05PrecompileExpr == "":
+		return c05PrecompileLit, nil
+	case c05PrecompileExpr == "f.Name.Name" || c05PrecompileExpr == "f.Name.String()":
+		return af.Name.Name, nil
+	}
+	return "", fmt.Errorf("cannot follow precompileCommand: package path %s", c05PrecompileExpr)
 }
 
 func c05LoadIR(filename string, f *ir.File) (e *ruleguard.Engine, err error) {
+	e = ruleguard.NewEngine()
+	return e, c05LoadIRInto(e, filename, f)
+}
+
+// c05LoadIRInto = one LoadFromIR call on e (a panic is returned as an error starting with "PANIC").
+func c05LoadIRInto(e *ruleguard.Engine, filename string, f *ir.File) (err error) {
 	defer func() {
-		if r := recover(); r != nil {
-			err = fmt.Errorf("PANIC %s: %v", hx.PanicKind(r), r)
+		if r := recover(); r != nil { // same form as hx.LoadInto: equal panics of the two engines are equal outcomes
+			err = fmt.Errorf("PANIC %s at %s: %v", hx.PanicKind(r), hx.Frame(debug.Stack()), r)
 		}
 	}()
-	e = ruleguard.NewEngine()
 	ctx := &ruleguard.LoadContext{Fset: token.NewFileSet()}
-	err = e.LoadFromIR(ctx, filename, f)
-	return e, err
+	return e.LoadFromIR(ctx, filename, f)
 }
 
 func c05Groups(e *ruleguard.Engine) (s string) {
@@ -207,7 +294,24 @@ func sample(a, b int, s, t string, p *point, r reader, e error) {
 type rulesGen struct {
 	r   *rand.Rand
 	res *hx.Result
+	// options of the file being generated (c05_hist.go); the zero value is the plain single-file generator
+	opt rulesOpts
 }
+
+// rulesOpts: what varies between the files of one load history.
+type rulesOpts struct {
+	pkg        string   // package clause ("" = gorules)
+	fnSuffix   string   // appended to the names of the custom functions (files of one engine may or may not share names)
+	tag        string   // spliced into the text reported by the Do function
+	variant    int      // bodies of the custom functions (0 = those of c05RulesHeader)
+	patterns   []string // pattern pool (nil = c05Patterns); a small shared pool makes the files compete for nodes
+	fewFilters bool     // most rules without Where: more nodes accepted by several rules
+	customBias bool     // prefer Filter(fn) atoms and Do(fn) actions
+	noStrings  bool     // no `import "strings"` (every load call type-checks that package from source: ten times the cost of a file without it)
+}
+
+// filters that call a custom function of the file
+var c05CustomAtoms = []string{`m["x"].Filter(isIntType)`, `m["y"].Filter(hasLongText)`, `m["x"].Filter(hasLongText)`, `m["y"].Filter(isIntType)`}
 
 // filters over the pattern variables x and y (both always bound by the generated patterns)
 var c05FilterAtoms = []string{
@@ -268,6 +372,9 @@ func reportText(ctx *dsl.DoContext) {
 func (g *rulesGen) filter(depth int) string {
 	r := g.r
 	if depth <= 0 || r.Intn(3) == 0 {
+		if g.opt.customBias && r.Intn(3) == 0 {
+			return c05CustomAtoms[r.Intn(len(c05CustomAtoms))]
+		}
 		return c05FilterAtoms[r.Intn(len(c05FilterAtoms))]
 	}
 	switch r.Intn(5) {
@@ -301,7 +408,11 @@ func quoteGo(r *rand.Rand, s string) string {
 func (g *rulesGen) file(idx int) string {
 	r := g.r
 	var sb strings.Builder
-	sb.WriteString(c05RulesHeader)
+	sb.WriteString(c05HeaderFor(g.opt))
+	patterns := c05Patterns
+	if g.opt.patterns != nil {
+		patterns = g.opt.patterns
+	}
 	ngroups := 1 + r.Intn(3)
 	for gi := 0; gi < ngroups; gi++ {
 		matcher := []string{"m", "m", "m", "mm"}[r.Intn(4)]
@@ -343,10 +454,14 @@ func (g *rulesGen) file(idx int) string {
 			np := 1 + r.Intn(2)
 			var pats []string
 			for i := 0; i < np; i++ {
-				pats = append(pats, quoteGo(r, c05Patterns[r.Intn(len(c05Patterns))]))
+				pats = append(pats, quoteGo(r, patterns[r.Intn(len(patterns))]))
 			}
 			fmt.Fprintf(&sb, "\t%s.Match(%s)", matcher, strings.Join(pats, ", "))
-			if r.Intn(5) != 0 {
+			where := r.Intn(5) != 0
+			if g.opt.fewFilters {
+				where = r.Intn(3) == 0
+			}
+			if where {
 				fmt.Fprintf(&sb, ".\n\t\tWhere(%s)", body(g.filter(2)))
 				g.res.Dist("rules:Where")
 			}
@@ -354,7 +469,11 @@ func (g *rulesGen) file(idx int) string {
 				fmt.Fprintf(&sb, ".\n\t\tAt(%s[\"x\"])", matcher)
 				g.res.Dist("rules:At")
 			}
-			switch r.Intn(6) {
+			action := r.Intn(6)
+			if g.opt.customBias && r.Intn(3) == 0 {
+				action = 2
+			}
+			switch action {
 			case 0:
 				fmt.Fprintf(&sb, ".\n\t\tSuggest(%s)\n", quoteGo(r, []string{"$y", "$x", "f($x)", ""}[r.Intn(4)]))
 				g.res.Dist("rules:Suggest")
@@ -388,19 +507,259 @@ func (g *rulesGen) file(idx int) string {
 		sb.WriteString(all[:groupStart] + defs.String() + rulesText)
 		sb.WriteString("}\n\n")
 	}
-	return sb.String()
+	return c05RenameFuncs(sb.String(), g.opt.fnSuffix)
+}
+
+// ---- load histories ----
+//
+// A job is a *load history*: 1..3 rules files loaded, in order, into ONE engine.  Engine A gets
+// Engine.Load(source) for every file, engine B gets LoadFromIR(evaluate(irprint(precompile(source))))
+// for every file, in the same order and under the same file names.  The property asks for equal
+// per-call outcomes, equal LoadedGroups() and equal report streams (same reports, same order).
+
+type e2eSrc struct{ filename, src string }
+
+type e2eJob struct {
+	name      string
+	kind      string // fixture | bundle | generated | history | fixture-history
+	files     []e2eSrc
+	targets   []*hx.Target
+	goVersion string
+	traits    []string // what the generator put into the history (distribution record only)
+}
+
+type e2eStep struct {
+	errA, errB       error
+	irf, evaluated   *ir.File
+	errConv, errEval error
+	text, pres       string
+}
+
+type e2eLoaded struct {
+	eA, eB *ruleguard.Engine
+	steps  []e2eStep
+	built  bool                // every file converted, printed and evaluated: engine B exists
+	lone   []*ruleguard.Engine // census only: every file of a multi-file history alone in a fresh engine (nil = did not load)
+}
+
+// c05LoadJob performs the loads and conversions of one history (safe to run in parallel with other jobs).
+func c05LoadJob(j *e2eJob, imp types.Importer, fset *token.FileSet, census bool) *e2eLoaded {
+	o := &e2eLoaded{steps: make([]e2eStep, len(j.files))}
+	o.eA = ruleguard.NewEngine()
+	for i, f := range j.files {
+		o.steps[i].errA = hx.LoadInto(o.eA, f.filename, f.src, nil)
+	}
+	for i, f := range j.files {
+		st := &o.steps[i]
+		st.irf, st.errConv = c05ConvertWith(imp, fset, f.filename, f.src)
+		if st.errConv != nil {
+			return o
+		}
+		st.text, st.pres = printIR(st.irf)
+		if st.pres != "ok" {
+			return o
+		}
+		st.evaluated, st.errEval = evalIRText(st.text)
+		if st.errEval != nil {
+			return o
+		}
+	}
+	o.built = true
+	o.eB = ruleguard.NewEngine()
+	for i, f := range j.files {
+		o.steps[i].errB = c05LoadIRInto(o.eB, f.filename, o.steps[i].evaluated)
+	}
+	if census && len(j.files) > 1 {
+		o.lone = make([]*ruleguard.Engine, len(j.files))
+		for i, f := range j.files {
+			if e := ruleguard.NewEngine(); o.steps[i].errA == nil && hx.LoadInto(e, f.filename, f.src, nil) == nil {
+				o.lone[i] = e
+			}
+		}
+	}
+	return o
+}
+
+// e2eVerdict: what the comparison of the two engines of one history says.
+type e2eVerdict struct {
+	class    string // convert-error | print-panic | eval-error | load-outcome-differs | all-loads-fail | groups-differ | reports-differ | equal
+	step     int    // the file the class is about (first failing step)
+	sig      string // base signature of a violation ("" = none)
+	what     string
+	impl     string
+	spec     string
+	diff     string
+	nrep     int
+	someFail bool // some (not all) load calls failed in both engines
+	disagree bool // convert-error while Load succeeded
+}
+
+var c05PosPrefixRe = regexp.MustCompile(`^[^\s:]+:\d+(:\d+)?: `)
+
+// c05ErrClass: the kind of a load error for signatures: the leading plain words of the message, positions dropped.
+func c05ErrClass(e error) string {
+	if e == nil {
+		return "ok"
+	}
+	s := e.Error()
+	if strings.HasPrefix(s, "PANIC ") {
+		return "panic-" + strings.TrimSuffix(strings.Fields(s + " ?")[1], ":")
+	}
+	for c05PosPrefixRe.MatchString(s) {
+		s = c05PosPrefixRe.ReplaceAllString(s, "")
+	}
+	var words []string
+	for _, w := range strings.Fields(s) {
+		last := strings.HasSuffix(w, ":")
+		w = strings.ReplaceAll(strings.TrimSuffix(w, ":"), "'", "")
+		if w == "" || strings.IndexFunc(w, func(r rune) bool { return !(r >= 'a' && r <= 'z' || r >= 'A' && r <= 'Z') }) >= 0 {
+			break
+		}
+		words = append(words, w)
+		if last || len(words) == 5 {
+			break
+		}
+	}
+	if len(words) == 0 {
+		return "error"
+	}
+	return strings.Join(words, "-")
+}
+
+func c05ErrStr(e error) string {
+	if e == nil {
+		return "ok"
+	}
+	return "error: " + e.Error()
+}
+
+// c05Judge compares the engines of a loaded history (sequential: it runs the engines on the targets).
+func c05Judge(j *e2eJob, o *e2eLoaded) e2eVerdict {
+	for i := range o.steps {
+		st := &o.steps[i]
+		switch {
+		case st.errConv != nil:
+			return e2eVerdict{class: "convert-error", step: i, disagree: st.errA == nil}
+		case st.pres != "ok":
+			return e2eVerdict{class: "print-panic", step: i, sig: "e2e:irprint:" + st.pres, what: "irprint.File panics on a converted rules file",
+				impl: st.pres, spec: "prints"}
+		case st.errEval != nil:
+			sig := "e2e:printed-text-does-not-evaluate"
+			if len(st.irf.BundleImports) > 0 {
+				sig = "e2e:BundleImports:printed-text-does-not-evaluate"
+			}
+			return e2eVerdict{class: "eval-error", step: i, sig: sig, what: "the text printed for a converted rules file is not a valid ir.File literal",
+				impl: "evaluate: " + st.errEval.Error(), spec: "evaluates to the converted value"}
+		}
+	}
+	// engine C: LoadFromIR of the converter's values directly (separates printer defects from loader differences)
+	var eC *ruleguard.Engine
+	var errsC []error
+	needC := func() {
+		if eC != nil {
+			return
+		}
+		eC = ruleguard.NewEngine()
+		for i, f := range j.files {
+			errsC = append(errsC, c05LoadIRInto(eC, f.filename, o.steps[i].irf))
+		}
+	}
+	nfail := 0
+	for i := range o.steps {
+		st := &o.steps[i]
+		// A load call that redefines several groups at once names the one its map iteration meets first
+		// (mergeRuleSets): when the two engines name different groups, every message that can be built
+		// from a group of this file and its definition by an earlier file is the same outcome.
+		var redef map[string]bool
+		outcome := func(e error) string {
+			s := c05ErrStr(e)
+			if len(redef) > 1 && redef[s] {
+				return fmt.Sprintf("error: %s: redefinition of one of %d groups defined by an earlier file", j.files[i].filename, len(redef))
+			}
+			return s
+		}
+		if st.errA != nil && st.errB != nil && st.errA.Error() != st.errB.Error() &&
+			strings.Contains(st.errA.Error(), ": redefinition of ") && strings.Contains(st.errB.Error(), ": redefinition of ") {
+			redef = c05RedefinitionOutcomes(j, o, i)
+		}
+		if outcome(st.errA) != outcome(st.errB) {
+			sig := "e2e:load-outcome-differs"
+			needC()
+			if outcome(errsC[i]) == outcome(st.errB) {
+				sig = "e2e:LoadFromIR-outcome-differs-from-Load"
+			}
+			sig += ":Load=" + c05ErrClass(st.errA) + "/LoadFromIR=" + c05ErrClass(st.errB)
+			return e2eVerdict{class: "load-outcome-differs", step: i, sig: sig,
+				what: "Load(source) and LoadFromIR(printed IR) do not agree on the outcome of a load call",
+				impl: fmt.Sprintf("call %d (%s): LoadFromIR: %s / direct IR: %s", i, j.files[i].filename, c05ErrStr(st.errB), c05ErrStr(errsC[i])),
+				spec: fmt.Sprintf("call %d (%s): Load: %s", i, j.files[i].filename, c05ErrStr(st.errA))}
+		}
+		if st.errA != nil {
+			nfail++
+		}
+	}
+	if nfail == len(o.steps) {
+		return e2eVerdict{class: "all-loads-fail"}
+	}
+	v := e2eVerdict{class: "equal", someFail: nfail > 0}
+	gA, gB := c05Groups(o.eA), c05Groups(o.eB)
+	if gA != gB {
+		return e2eVerdict{class: "groups-differ", sig: "e2e:LoadedGroups-differ", what: "LoadedGroups() of the two engines differ", impl: gB, spec: gA,
+			diff: firstDiff(gA, gB), someFail: v.someFail}
+	}
+	rA, rB := c05RunAll(o.eA, j.targets, j.goVersion), c05RunAll(o.eB, j.targets, j.goVersion)
+	v.nrep = strings.Count(rA, "\n") - len(j.targets)
+	if rA != rB {
+		needC()
+		sig := "e2e:reports-differ"
+		if c05RunAll(eC, j.targets, j.goVersion) == rB {
+			sig = "e2e:reports-differ:LoadFromIR-vs-Load"
+		}
+		return e2eVerdict{class: "reports-differ", sig: sig, what: "report streams of the two engines differ",
+			impl: "see diff (second)", spec: "see diff (first)", diff: firstDiff(rA, rB), someFail: v.someFail}
+	}
+	return v
+}
+
+// c05RedefinitionOutcomes: the messages a redefinition error of load call i may carry, from lone runs:
+// every file alone in a fresh engine tells which groups it defines and where (bundle groups included).
+func c05RedefinitionOutcomes(j *e2eJob, o *e2eLoaded, i int) map[string]bool {
+	groupsOf := func(k int) map[string]string {
+		e := ruleguard.NewEngine()
+		if hx.LoadInto(e, j.files[k].filename, j.files[k].src, nil) != nil {
+			return nil
+		}
+		m := map[string]string{}
+		for _, g := range e.LoadedGroups() {
+			m[g.Name] = fmt.Sprintf("%s:%d", g.Filename, g.Line)
+		}
+		return m
+	}
+	defined := map[string]string{}
+	for k := 0; k < i; k++ {
+		if o.steps[k].errA != nil {
+			continue
+		}
+		for name, ref := range groupsOf(k) {
+			if _, ok := defined[name]; !ok {
+				defined[name] = ref
+			}
+		}
+	}
+	out := map[string]bool{}
+	for name, ref := range groupsOf(i) {
+		if old, ok := defined[name]; ok {
+			out[fmt.Sprintf("error: %s: redefinition of %s(), previously defined at %s", ref, name, old)] = true
+		}
+	}
+	return out
 }
 
 // c05E2E runs the end-to-end suite and returns the converted files (their IR feeds the IR suites too).
 func c05E2E(c *Ctx) ([]e2eFile, error) {
 	res := c.Res
 	var files []e2eFile
-	type job struct {
-		name, src string
-		targets   []*hx.Target
-		goVersion string
-	}
-	var jobs []job
+	var jobs []*e2eJob
 
 	genTarget, err := c05ParseTarget("target.go", c05GenTarget)
 	if err != nil {
@@ -442,39 +801,35 @@ func c05E2E(c *Ctx) ([]e2eFile, error) {
 		if strings.HasPrefix(rel, "goversion") {
 			gv = "1.16"
 		}
-		jobs = append(jobs, job{name: "fixture:" + rel, src: string(b), targets: targets, goVersion: gv})
+		jobs = append(jobs, &e2eJob{name: "fixture:" + rel, kind: "fixture", files: []e2eSrc{{"rules.go", string(b)}}, targets: targets, goVersion: gv})
 	}
+	nFixtures := len(jobs)
 	// bundle imports: dsl.ImportRules of verifharness/c05bundle (resolved by `go list` from the harness directory)
 	for i, prefix := range []string{"pfx", "", "a/b"} {
-		src := "package gorules\n\nimport (\n\t\"github.com/quasilyte/go-ruleguard/dsl\"\n\tbundle \"verifharness/c05bundle\"\n)\n\n" +
-			"func init() {\n\tdsl.ImportRules(" + fmt.Sprintf("%q", prefix) + ", bundle.Bundle)\n}\n\n" +
-			"func own(m dsl.Matcher) {\n\tm.Match(`$x - 0`).Report(`own: $x minus zero`)\n}\n"
-		jobs = append(jobs, job{name: fmt.Sprintf("bundle#%d", i), src: src, targets: []*hx.Target{genTarget}})
+		jobs = append(jobs, &e2eJob{name: fmt.Sprintf("bundle#%d", i), kind: "bundle", files: []e2eSrc{{"rules.go", c05BundleRules(prefix, "own")}}, targets: []*hx.Target{genTarget}})
 	}
-	nFixtures := len(jobs) - 3
 	if nFixtures < 20 {
 		res.Errorf("only %d fixture rules files found under %s", nFixtures, root)
 	}
-	// generated
-	nGen := 40
+	// generated, one file per engine
+	nGen, nHist, nFixHist := 40, 36, 8
 	if c.Thorough {
-		nGen = 1500
+		nGen, nHist, nFixHist = 1500, 500, 60
 	}
 	g := &rulesGen{r: hx.Rng(c.Seed, "c05-rules"), res: res}
 	for i := 0; i < nGen; i++ {
 		gv := []string{"", "1.16", "1.20"}[g.r.Intn(3)]
-		jobs = append(jobs, job{name: fmt.Sprintf("generated#%d", i), src: g.file(i), targets: []*hx.Target{genTarget}, goVersion: gv})
+		jobs = append(jobs, &e2eJob{name: fmt.Sprintf("generated#%d", i), kind: "generated", files: []e2eSrc{{"rules.go", g.file(i)}}, targets: []*hx.Target{genTarget}, goVersion: gv})
 	}
+	// load histories: 1..3 files per engine (c05_hist.go)
+	jobs = append(jobs, c05Histories(c, nHist, genTarget)...)
+	jobs = append(jobs, c05BundleAfterHistories(c, genTarget)...)
+	jobs = append(jobs, c05FixtureHistories(c, nFixHist, jobs[:nFixtures])...)
 
 	// phase 1 (parallel): the loads and the conversion; phase 2 (sequential): comparison and runs
-	type loaded struct {
-		eA, eB           *ruleguard.Engine
-		errA, errB       error
-		irf, evaluated   *ir.File
-		errConv, errEval error
-		text, pres       string
-	}
-	out := make([]loaded, len(jobs))
+	tPhase := time.Now()
+	var tJudge, tDist, tShrink time.Duration
+	out := make([]*e2eLoaded, len(jobs))
 	nw := runtime.NumCPU()
 	if nw > 12 {
 		nw = 12
@@ -492,122 +847,113 @@ func c05E2E(c *Ctx) ([]e2eFile, error) {
 				if i >= len(jobs) {
 					return
 				}
-				j := jobs[i]
-				o := &out[i]
-				o.eA = ruleguard.NewEngine()
-				o.errA = hx.LoadInto(o.eA, "rules.go", j.src, nil)
-				o.irf, o.errConv = c05ConvertWith(imp, fset, "rules.go", j.src)
-				if o.errConv != nil {
-					continue
-				}
-				o.text, o.pres = printIR(o.irf)
-				if o.pres != "ok" {
-					continue
-				}
-				o.evaluated, o.errEval = evalIRText(o.text)
-				if o.errEval != nil {
-					continue
-				}
-				o.eB, o.errB = c05LoadIR("rules.go", o.evaluated)
+				out[i] = c05LoadJob(jobs[i], imp, fset, !c.Thorough || i%3 == 0)
 			}
 		}()
 	}
 	wg.Wait()
+	tLoad := time.Since(tPhase)
+	defer func() {
+		res.Notes = append(res.Notes, fmt.Sprintf("e2e: %d jobs; loads %.1fs, comparison and runs %.1fs, contested-node census %.1fs, shrinking %.1fs",
+			len(jobs), tLoad.Seconds(), tJudge.Seconds(), tDist.Seconds(), tShrink.Seconds()))
+	}()
 
+	shrinkFset := token.NewFileSet()
+	shrinkImp := importer.ForCompiler(shrinkFset, "source", nil)
+	shrunk := map[string]int{}
 	for ji, j := range jobs {
-		kind := strings.SplitN(j.name, ":", 2)[0]
-		kind = strings.SplitN(kind, "#", 2)[0]
+		kind := j.kind
 		o := out[ji]
-		eA, errA, irf, errConv := o.eA, o.errA, o.irf, o.errConv
 		res.Count("e2e", j.name, true)
-		if errConv != nil {
-			if errA == nil {
-				res.Disagree(hx.Disagreement{Suite: "e2e", Op: "convert " + j.name, Impl: "precompile: " + errConv.Error(), Model: "Load: ok",
-					Input: map[string]interface{}{"rules": j.src}})
+		if len(j.files) > 1 || kind == "history" {
+			res.Count("e2e-history", j.name, len(j.files) > 1)
+		}
+		t0 := time.Now()
+		v := c05Judge(j, o)
+		tJudge += time.Since(t0)
+		if kind != "fixture-history" { // those files are already there
+			for i := range o.steps {
+				if o.steps[i].irf != nil {
+					name := j.name
+					if len(j.files) > 1 {
+						name = fmt.Sprintf("%s/%d", j.name, i)
+					}
+					files = append(files, e2eFile{name: name, src: j.files[i].src, irfile: o.steps[i].irf})
+				}
+			}
+		}
+		t0 = time.Now()
+		c05HistoryDist(res, j, o, &v)
+		tDist += time.Since(t0)
+		switch v.class {
+		case "convert-error":
+			st := &o.steps[v.step]
+			if v.disagree {
+				res.Disagree(hx.Disagreement{Suite: "e2e", Op: "convert " + j.name, Impl: "precompile: " + st.errConv.Error(), Model: "Load: ok",
+					Input: c05JobInput(j)})
 			}
 			res.Dist("e2e:" + kind + ":convert-error")
-			if errA == nil || firstLine(errA.Error()) != "irconv error: "+firstLine(errConv.Error()) {
-				res.Dist("e2e:" + kind + ":convert-error:" + firstLine(errConv.Error()))
+			if st.errA == nil || firstLine(st.errA.Error()) != "irconv error: "+firstLine(st.errConv.Error()) {
+				res.Dist("e2e:" + kind + ":convert-error:" + firstLine(st.errConv.Error()))
 			}
-			continue
-		}
-		files = append(files, e2eFile{name: j.name, src: j.src, irfile: irf})
-		text, pres := o.text, o.pres
-		if pres != "ok" {
-			res.Violate(hx.Violation{Signature: "e2e:irprint:" + pres, What: "irprint.File panics on a converted rules file",
-				Input: map[string]interface{}{"rules": j.src}, Impl: pres, Spec: "prints"})
-			res.Dist("e2e:" + kind + ":print-panic")
-			continue
-		}
-		errEval := o.errEval
-		if errEval != nil {
-			sig := "e2e:printed-text-does-not-evaluate"
-			if len(irf.BundleImports) > 0 {
-				sig = "e2e:BundleImports:printed-text-does-not-evaluate"
-			}
-			res.Violate(hx.Violation{Signature: sig, What: "the text printed for a converted rules file is not a valid ir.File literal",
-				Input: map[string]interface{}{"file": j.name, "rules": j.src, "printed": text}, Impl: "evaluate: " + errEval.Error(), Spec: "evaluates to the converted value"})
-			res.Dist("e2e:" + kind + ":eval-error")
-			continue
-		}
-		eB, errB := o.eB, o.errB
-		var eC *ruleguard.Engine
-		var errC error
-		needC := func() {
-			if eC == nil && errC == nil {
-				eC, errC = c05LoadIR("rules.go", irf)
-			}
-		}
-		errStr := func(e error) string {
-			if e == nil {
-				return "ok"
-			}
-			return "error: " + e.Error()
-		}
-		if errStr(errA) != errStr(errB) {
-			sig := "e2e:load-outcome-differs"
-			needC()
-			if errStr(errC) == errStr(errB) {
-				sig = "e2e:LoadFromIR-outcome-differs-from-Load"
-			}
-			res.Violate(hx.Violation{Signature: sig, What: "Load(source) and LoadFromIR(printed IR) do not agree on success",
-				Input: map[string]interface{}{"file": j.name, "rules": j.src}, Impl: "LoadFromIR: " + errStr(errB) + " / direct IR: " + errStr(errC), Spec: "Load: " + errStr(errA)})
-			res.Dist("e2e:" + kind + ":load-outcome-differs")
-			continue
-		}
-		if errA != nil {
+		case "all-loads-fail":
 			res.Dist("e2e:" + kind + ":both-load-errors")
-			continue
-		}
-		gA, gB := c05Groups(eA), c05Groups(eB)
-		if gA != gB {
-			res.Violate(hx.Violation{Signature: "e2e:LoadedGroups-differ", What: "LoadedGroups() of the two engines differ",
-				Input: map[string]interface{}{"file": j.name, "rules": j.src}, Impl: gB, Spec: gA})
-			continue
-		}
-		rA, rB := c05RunAll(eA, j.targets, j.goVersion), c05RunAll(eB, j.targets, j.goVersion)
-		nrep := strings.Count(rA, "\n") - len(j.targets)
-		if rA != rB {
-			needC()
-			sig := "e2e:reports-differ"
-			if errC == nil && c05RunAll(eC, j.targets, j.goVersion) == rB {
-				sig = "e2e:reports-differ:LoadFromIR-vs-Load"
+		case "equal":
+			if v.nrep > 0 {
+				res.Dist("e2e:" + kind + ":equal-with-reports")
+			} else {
+				res.Dist("e2e:" + kind + ":equal-no-reports")
 			}
-			res.Violate(hx.Violation{Signature: sig, What: "report streams of the two engines differ",
-				Input: map[string]interface{}{"file": j.name, "rules": j.src, "diff": firstDiff(rA, rB)}, Impl: "see diff (second)", Spec: "see diff (first)"})
-			res.Dist("e2e:" + kind + ":reports-differ")
-			continue
-		}
-		if nrep > 0 {
-			res.Dist("e2e:" + kind + ":equal-with-reports")
-		} else {
-			res.Dist("e2e:" + kind + ":equal-no-reports")
-		}
-		if len(res.Samples) < 6 && kind == "generated" {
-			res.Sample(map[string]interface{}{"rules": j.src, "reports": nrep})
+			if len(res.Samples) < 6 && (kind == "generated" || kind == "history") {
+				res.Sample(map[string]interface{}{"rules": c05JobInput(j), "reports": v.nrep})
+			}
+		default: // a violation of the property
+			res.Dist("e2e:" + kind + ":" + v.class)
+			pre := v.sig
+			if len(j.files) > 1 {
+				pre += ":multi"
+			}
+			sj, sv := j, v
+			if v.class == "load-outcome-differs" || v.class == "groups-differ" || v.class == "reports-differ" {
+				if shrunk[pre] >= 2 || v.class == "load-outcome-differs" && shrunk[pre] >= 1 {
+					continue // witnesses of this kind were shrunk and classified already
+				}
+				shrunk[pre]++
+				t0 = time.Now()
+				sj, sv = c05ShrinkHistory(j, v, shrinkImp, shrinkFset)
+				tShrink += time.Since(t0)
+				sv.sig += c05InputClass(sj)
+			}
+			in := c05JobInput(sj)
+			in["origin"] = j.name
+			if sv.diff != "" {
+				in["diff"] = sv.diff
+			}
+			if v.class == "eval-error" {
+				in["printed"] = o.steps[v.step].text
+			}
+			res.Violate(hx.Violation{Signature: sv.sig, What: sv.what, Input: in, Impl: sv.impl, Spec: sv.spec})
 		}
 	}
 	return files, nil
+}
+
+func c05BundleRules(prefix, group string) string {
+	return "package gorules\n\nimport (\n\t\"github.com/quasilyte/go-ruleguard/dsl\"\n\tbundle \"verifharness/c05bundle\"\n)\n\n" +
+		"func init() {\n\tdsl.ImportRules(" + fmt.Sprintf("%q", prefix) + ", bundle.Bundle)\n}\n\n" +
+		"func " + group + "(m dsl.Matcher) {\n\tm.Match(`$x - 0`).Report(`" + group + ": $x minus zero`)\n}\n"
+}
+
+// c05JobInput: the recorded input of a history ("file"/"rules" for a single file, as before; "history" otherwise).
+func c05JobInput(j *e2eJob) map[string]interface{} {
+	if len(j.files) == 1 {
+		return map[string]interface{}{"file": j.name, "rules": j.files[0].src}
+	}
+	var hs []interface{}
+	for _, f := range j.files {
+		hs = append(hs, map[string]interface{}{"filename": f.filename, "rules": f.src})
+	}
+	return map[string]interface{}{"file": j.name, "history": hs, "engineA": "Load of every file in order", "engineB": "LoadFromIR of every precompiled file in order"}
 }
 
 func firstLine(s string) string {
